@@ -25,6 +25,7 @@ pub struct Dev {
     pub errors: Box<dyn AnyQueue>,
     pub tst: i16,
     pub hook_calls: u32,
+    pub trigs: u32,
 }
 
 impl Dev {
@@ -38,6 +39,7 @@ impl Dev {
             errors: new_queue(cap),
             tst,
             hook_calls: 0,
+            trigs: 0,
         }
     }
     pub fn snapshot(&self) -> Self {
@@ -50,6 +52,7 @@ impl Dev {
             errors: self.errors.boxed_clone(),
             tst: self.tst,
             hook_calls: 0,
+            trigs: 0,
         }
     }
 }
@@ -58,6 +61,13 @@ impl Device for Dev {
     fn handle_error(&mut self, err: Error) {
         self.hook_calls += 1;
         self.push_error(err)
+    }
+}
+
+impl scpi_contrib::ieee488::trg::CommonTrg for Dev {
+    fn trig_bus(&mut self) -> Result<()> {
+        self.trigs += 1;
+        Ok(())
     }
 }
 
@@ -177,6 +187,7 @@ pub const TREE: Node<Dev> = Root![
     ieee488_sre!(),
     ieee488_stb!(),
     ieee488_tst!(),
+    Leaf!(b"*TRG" => &scpi_contrib::ieee488::trg::TrgCommand),
     ieee488_wai!(),
     scpi_status!(),
     scpi_system!(),
@@ -273,6 +284,7 @@ pub fn render_unit(u: &Value, style: u64, rotk: u32) -> String {
         "opcq" => "*OPC?".into(),
         "rst" => "*RST".into(),
         "wai" => "*WAI".into(),
+        "trg" => if style % 2 == 0 { "*TRG".into() } else { "*trg".into() },
         "sre" => format!("*SRE {}", num(v, style)),
         "sreq" => "*SRE?".into(),
         "stbq" => "*STB?".into(),
@@ -325,7 +337,7 @@ pub fn render_unit(u: &Value, style: u64, rotk: u32) -> String {
             ("range", 0) => "TU8 256".into(),
             ("range", 1) => "TU8 -1".into(),
             ("range", _) => "TU8 1e9".into(),
-            ("form", 0) => "*CLS?".into(),
+            ("form", 0) => if style % 16 < 8 { "*CLS?".into() } else { "*TRG?".into() },
             ("form", 1) => "*ESR".into(),
             ("form", 2) => "STAT:PRES?".into(),
             ("form", 3) => "SYST:ERR:COUN".into(),
@@ -435,6 +447,7 @@ pub struct MsgResult {
     pub raw: Vec<u8>,
     pub text: String,
     pub hook_calls: u32,
+    pub trigs: u32,
 }
 
 /// Execute a message (list of units) on the device; decode the response per query unit.
@@ -465,6 +478,7 @@ pub fn run_msg(d: &mut Dev, units: &[Value], mav: bool, style: u64, rotk: u32) -
     ctx.mav = mav;
     let mut buf: Vec<u8> = Vec::new();
     d.hook_calls = 0;
+    d.trigs = 0;
     let res = TREE.run(text.as_bytes(), d, &mut ctx, &mut buf);
     let ret = match &res {
         Ok(()) => json!({"code": 0, "ext": 0}),
@@ -485,7 +499,7 @@ pub fn run_msg(d: &mut Dev, units: &[Value], mav: bool, style: u64, rotk: u32) -
             resps.push(decode_unit(op, p, rotk));
         }
     }
-    MsgResult { ret, resps: Value::Array(resps), raw: buf, text, hook_calls: d.hook_calls }
+    MsgResult { ret, resps: Value::Array(resps), raw: buf, text, hook_calls: d.hook_calls, trigs: d.trigs }
 }
 
 /// The same message on a fixed-capacity response buffer (C11 for the mandated commands):
@@ -721,7 +735,7 @@ pub fn record_trace(args: &[String]) -> i32 {
                     }
                     let _ = nresp;
                     out.put(&json!({"ev": "msg", "units": units, "mav": mav, "ret": m.ret, "resps": m.resps,
-                                    "post": project(&d, 0), "text": m.text, "hook": m.hook_calls}));
+                                    "post": project(&d, 0), "text": m.text, "hook": m.hook_calls, "trigs": m.trigs}));
                 }
             }
         }
@@ -759,7 +773,7 @@ fn gen_unit(
     mk: &dyn Fn(&str, &str, i64, &str, i64, i64) -> Value,
 ) -> Value {
     let c15 = ["evq", "condq", "enab", "enabq", "ptr", "ptrq", "ntr", "ntrq", "pres", "cls", "evq", "ptr", "ntr"];
-    let c16 = ["idnq", "versq", "cls", "ese", "eseq", "esrq", "opc", "opcq", "rst", "wai", "sre", "sreq", "stbq", "stbq", "stbq", "tstq", "enab", "errq", "fail", "evq", "pres"];
+    let c16 = ["idnq", "versq", "cls", "ese", "eseq", "esrq", "opc", "opcq", "rst", "wai", "trg", "sre", "sreq", "stbq", "stbq", "stbq", "tstq", "enab", "errq", "fail", "evq", "pres"];
     let c13 = ["fail", "fail", "bad", "bad", "errq", "errq", "countq", "allq", "esrq", "opc", "opcq", "cls", "nop", "nopq", "ese", "stbq"];
     let all: Vec<&str> = c15.iter().chain(c16.iter()).chain(c13.iter()).copied().collect();
     let op = match mix {
